@@ -67,10 +67,10 @@ type oDep struct {
 }
 type tQuery struct {
 	Tpl      []tPart `json:"tpl"`
-	Query    string `json:"query"`
-	Cyclic   bool   `json:"cyclic"`
-	Result   string `json:"result"`
-	Resolved bool   `json:"resolved"`
+	Query    string  `json:"query"`
+	Cyclic   bool    `json:"cyclic"`
+	Result   string  `json:"result"`
+	Resolved bool    `json:"resolved"`
 }
 type pomCase struct {
 	Kind     string             `json:"kind"`
@@ -92,17 +92,17 @@ type pomObs struct {
 	Boms       [][]tPom           `json:"boms"`
 	Table      map[string][]tPart `json:"table"`
 	Queries    [][]tPart          `json:"queries"`
-	Kind       string  `json:"kind"`
-	InDomain   bool    `json:"indomain"`
-	Ok         bool    `json:"ok"`
-	Err        string  `json:"err"`
-	WantDeps   []oDep  `json:"wantdeps"`
-	WantMgmt   []oDep  `json:"wantmgmt"`
-	Deps       []oDep  `json:"deps"`
-	Mgmt       []oDep  `json:"mgmt"`
-	Terminated bool    `json:"terminated"`
-	Want       []tQuery `json:"want"`
-	Got        []qObs  `json:"got"`
+	Kind       string             `json:"kind"`
+	InDomain   bool               `json:"indomain"`
+	Ok         bool               `json:"ok"`
+	Err        string             `json:"err"`
+	WantDeps   []oDep             `json:"wantdeps"`
+	WantMgmt   []oDep             `json:"wantmgmt"`
+	Deps       []oDep             `json:"deps"`
+	Mgmt       []oDep             `json:"mgmt"`
+	Terminated bool               `json:"terminated"`
+	Want       []tQuery           `json:"want"`
+	Got        []qObs             `json:"got"`
 }
 
 func tpl(ps []tPart) string {
